@@ -33,6 +33,8 @@ var coveredBy = map[string]string{
 	":tinyLFU.Increment": "TieTinyLFU", ":tinyLFU.Estimate": "TieTinyLFU", ":tinyLFU.reset": "TieTinyLFU", ":tinyLFU.clear": "TieTinyLFU", ":tinyLFU.Push": "TieTinyLFU",
 	":defaultPolicy.Add": "TiePolicyAdd", ":sampledLFU.fillSample": "TiePolicyAdd",
 	"z:Tree.newNode": "TieTree", "z:Tree.split": "TieTree", "z:Tree.get": "TieTree", "z:Tree.Get": "TieTree",
+	"z:Allocator.Allocate": "TieAlloc", "z:Allocator.addBufferAt": "TieAlloc", "z:Allocator.TrimTo": "TieAlloc",
+	"z:Allocator.AllocateAligned": "TieAlloc", "z:NewAllocator": "TieAlloc", "z:Allocator.Size": "TieAlloc", "z:Allocator.Reset": "TieAlloc",
 	"z:node.bits": "TieNode", "z:node.compact": "TieNode", "z:node.get": "TieNode", "z:node.isFull": "TieNode",
 	"z:node.isLeaf": "TieNode", "z:node.maxKey": "TieNode", "z:node.moveRight": "TieNode", "z:node.numKeys": "TieNode",
 	"z:node.search": "TieNode", "z:node.set": "TieNode", "z:node.setBit": "TieNode", "z:node.setNumKeys": "TieNode",
@@ -73,4 +75,40 @@ func keptDef(out, lean string) (string, bool) {
 		return "", false
 	}
 	return src[start : loc[0]+end+1], true
+}
+
+// Whole-function modules.  When a construct of the source falls outside a whole-function
+// translator's subset (a new helper call, another loop form), the tighter tie of that module cannot
+// be re-established on this run - but the function is still tied as before the whole-function
+// translators existed: by its anchored kernels, its action flow / pins and by trace validation,
+// all of which are re-checked.  In that case the module keeps its last reviewed text (pinned copy),
+// go2lean prints `STALE <module> <reason>`, and the check records that the whole-function tie of
+// that module was not re-established.  The two fallbacks never combine: an anchor that is KEPT
+// because its function is covered by a tie of a STALE module is a failure (covered.go, main.go).
+var staleOK = map[string]bool{"Methods": true, "Node": true, "BufferM": true, "TreeM": true, "AllocM": true,
+	"SketchM": true, "TinyLFUM": true, "PolicyM": true, "Ring": true, "KeyToHash": true}
+
+var tieModule = map[string][]string{
+	"TieStore": {"Methods"}, "TieExpiry": {"Methods"}, "TiePolicy": {"Methods"}, "TieNode": {"Node"},
+	"TieBuffer": {"BufferM"}, "TieBufferSort": {"BufferM"}, "TieTree": {"TreeM", "Node"}, "TieAlloc": {"AllocM"},
+	"TieSketch": {"SketchM"}, "TieTinyLFU": {"TinyLFUM", "SketchM"}, "TiePolicyAdd": {"PolicyM", "TinyLFUM", "SketchM"},
+}
+
+var untransRe = regexp.MustCompile(`(?m)^\s*-- UNTRANSLATABLE ([^:\s]+)`)
+
+// staleText returns the pinned text of module `name` (without its closing `end Gen.<name>` line)
+// with a marker comment after the first line.
+func staleText(name, reason string) (string, bool) {
+	b, err := os.ReadFile(filepath.Join(pinnedDir, name+".lean"))
+	if err != nil {
+		return "", false
+	}
+	src := strings.TrimRight(string(b), "\n")
+	end := "end Gen." + name
+	if !strings.HasSuffix(src, end) {
+		return "", false
+	}
+	src = strings.TrimRight(strings.TrimSuffix(src, end), "\n") + "\n"
+	nl := strings.Index(src, "\n")
+	return src[:nl+1] + "-- STALE: not regenerated on this run (" + strings.ReplaceAll(reason, "\n", " ") + "); this is the last reviewed text\n" + src[nl+1:], true
 }
